@@ -93,7 +93,13 @@ def gen_script(rnd, tier):
             objs[o2] = k
             L.append("inst %d : %d" % (o2, k))
             t = rnd.sample(range(1, n + 1), rnd.randint(1, min(2, n)))
-            if rnd.random() < 0.7:
+            swap = len(t) == 2 and rnd.random() < 0.4
+            if swap:
+                # the class (chain) implements ONE of the two named interfaces when the first declaration is made, and -- after an
+                # *only* declaration -- exactly the OTHER one when the second is made: as many redundant names, other names
+                L.append("add %d : %d" % (rnd.choice(chain), t[1]))
+                observe()
+            elif rnd.random() < 0.7:
                 L.append("add %d : %s" % (rnd.choice(chain), " ".join(map(str, t if rnd.random() < 0.7 else rnd.sample(range(1, n + 1), 1)))))
                 observe()
             L.append("dp %d : %s" % (o1, " ".join(map(str, t))))
@@ -101,6 +107,8 @@ def gen_script(rnd, tier):
             a = rnd.choice(chain)
             xs = rnd.sample(range(1, n + 1), rnd.randint(1, min(2, n)))
             kind = rnd.choice(["only", "only", "add", "first"])
+            if swap:
+                a, xs, kind = k, [t[0]], "only"
             L.append("%s %d : %s" % (kind, a, " ".join(map(str, xs[:1] if kind == "first" else xs))))
             observe()
             if rnd.random() < 0.3:
